@@ -31,11 +31,11 @@ CHECKS = [
         "event with one (type, count) list per successor / predecessor multiset and no other, and the lemmas rep_count / entries_denote / "
         "written_lists_denote / same_denotation_same_sets / model_round_trip give: the events loaded from what was written have the same types and the "
         "same successor and predecessor multisets (93 clauses in contracts/c04.py; 21 in contracts/c04_eventset.py: the concrete EventSet under the dict view and get_event_set_counts, the counts each successor type was seen with; "
-        "76 in contracts/c04_ingest.py: the fold of a run's evidence into the model it was given - update_and_create_events_from_graph_solution(s) of "
+        "97 in contracts/c04_ingest.py: the fold of a run's evidence into the model it was given - update_and_create_events_from_graph_solution(s) of "
         "tel2puml/pv_to_puml/data_ingestion.py: afterwards a type's successor / predecessor sets are the sets it had plus one multiset per occurrence "
         "in the graph solutions, nothing else, every cache coherent; lemmas out_splits / chunked_equals_one_shot / chunk_order_irrelevant: folding chunk a "
         "then chunk b gives the sets of folding a + b at once, in either order (graph solutions themselves - janus - are records these functions do not "
-        "modify; PV stream -> graph solution is not under contract); 22 in contracts/c04_models.py: pv_streams_to_puml_files gives every workflow name "
+        "modify; PV stream -> graph solution is not under contract); 23 in contracts/c04_models.py: pv_streams_to_puml_files gives every workflow name "
         "its own loaded-or-empty model, its own jobs and its own files). A mechanical scan "
         "of tel2puml/** turns every syntactic mutation site of event_sets / the cached tree into an obligation `Event.frame@<function>` that must be "
         "covered by such a contract. BOUNDED complement (not counted as proved): on the real code with real model files, for all job sets of <= 3 jobs "
@@ -170,7 +170,7 @@ CHECKS += [
          "is outside the precondition); lemmas "
          "load_inverts_save_event / load_inverts_save_file: loading what was saved under the same mapping (pairwise distinct names; default names when no "
          "mapping was used) gives the events back. Files are a ghost map (json.dump / json.load trusted to be inverse; pydantic validation trusted). "
-         "And PROVED (contracts/c04_models.py, 22 clauses): pv_streams_to_puml_files, where both routes end - every streamed workflow name learns its own "
+         "And PROVED (contracts/c04_models.py, 23 clauses): pv_streams_to_puml_files, where both routes end - every streamed workflow name learns its own "
          "jobs into its own loaded-or-empty model under its own .puml / _model.json paths, models saved iff requested (callees pv_to_puml_file and "
          "save_events_to_file trusted and logged in ghost lists).",
          "DESIGN.md I.2 (one model per workflow name), 4/C14"),
